@@ -133,12 +133,16 @@ def wrap_exit(cls, name, hook_name, after):
                 after(self, args, kwargs, None, e)
             except _Broken as b:
                 _report(hook_name, b)
+            except Exception as he:  # the hook itself failed (e.g. private state it reads was renamed): never disturb the library call
+                _hook_failed(hook_name, he)
             raise
         _hook_counts[hook_name] += 1
         try:
             after(self, args, kwargs, result, None)
         except _Broken as b:
             _report(hook_name, b)
+        except Exception as he:
+            _hook_failed(hook_name, he)
         return result
 
     setattr(owner, name, wrapper)
@@ -151,6 +155,12 @@ class _Broken(Exception):
         super().__init__(what)
         self.what = what
         self.detail = detail
+
+
+def _hook_failed(hook_name, exc):
+    """a failing hook is the monitor's problem, not the library's: recorded as a harness error (the check ends inconclusive)"""
+    if _ctx is not None and len(_ctx.harness_errors) < 50:
+        _ctx.harness_errors.append(f'hook {hook_name} failed: {type(exc).__name__}: {exc}'[:400])
 
 
 def _report(hook_name, b):
